@@ -1107,21 +1107,46 @@ def desugar_iter_closures(d):
         while i < len(b["blocks"]):
             t = b["blocks"][i].get("term")
             i += 1
-            if not t or t.get("k") != "call" or t.get("t") is None or len(t.get("args", [])) != 2 or len(b["blocks"]) > 900:
+            if not t or t.get("k") != "call" or t.get("t") is None or len(b["blocks"]) > 900:
                 continue
             g = t["callee"].get("generic") or ""
-            if g not in ("std::iter::Iterator::for_each", "std::iter::Iterator::try_for_each"):
+            # kind -> (index of the closure argument, number of arguments)
+            kind = {"std::iter::Iterator::for_each": ("for_each", 1, 2), "std::iter::Iterator::try_for_each": ("try_for_each", 1, 2),
+                    "std::option::Option::<T>::filter": ("filter", 1, 2), "std::option::Option::<T>::map": ("map", 1, 2),
+                    "std::option::Option::<T>::map_or": ("map_or", 2, 3),
+                    "std::ops::Fn::call": ("call", 0, 2), "std::ops::FnMut::call_mut": ("call", 0, 2), "std::ops::FnOnce::call_once": ("call", 0, 2)}.get(g)
+            if kind is None or len(t.get("args", [])) != kind[2]:
                 continue
-            is_try = g.endswith("try_for_each")
-            ca = t["args"][1]
+            kind, ci_arg, _n = kind
+            if kind == "call" and not t["callee"].get("calls_closure"):
+                continue
+            is_filter = kind == "filter"
+            is_try = kind == "try_for_each"
+            ca = t["args"][ci_arg]
             if ca.get("k") not in ("move", "copy") or ca["place"]["p"]:
                 continue
             cl = ca["place"]["l"]
+
+            def sole_def(l_):
+                ds_ = [st for blk in b["blocks"] for st in blk.get("stmts", []) if st.get("k") == "assign" and st["lhs"]["l"] == l_ and not st["lhs"]["p"]]
+                return ds_[0] if len(ds_) == 1 else None
+            if kind == "call":
+                # `f(x)` on a closure bound to a local: the callee operand is `&f` / `&mut f` (Fn / FnMut) or `f` itself (FnOnce)
+                for _ in range(3):
+                    d0 = sole_def(cl)
+                    if d0 is not None and d0["rv"].get("k") == "ref" and not d0["rv"]["place"]["p"]:
+                        cl = d0["rv"]["place"]["l"]
+                    elif d0 is not None and d0["rv"].get("k") == "use" and d0["rv"]["op"].get("k") in ("move", "copy") and not d0["rv"]["op"]["place"]["p"]:
+                        cl = d0["rv"]["op"]["place"]["l"]
+                    else:
+                        break
             aggs = [st for blk in b["blocks"] for st in blk.get("stmts", []) if st.get("k") == "assign" and st["lhs"]["l"] == cl and not st["lhs"]["p"]]
             if len(aggs) != 1 or aggs[0]["rv"].get("k") != "agg" or aggs[0]["rv"].get("ak") != "closure" or aggs[0]["rv"].get("def") not in bodies:
                 continue
             h = bodies[aggs[0]["rv"]["def"]]
-            if h.get("arg_count") != 2 or len(h["blocks"]) > 250:
+            if (kind != "call" and h.get("arg_count") != 2) or len(h["blocks"]) > 250:
+                continue
+            if kind == "call" and h["def"] == b["def"]:
                 continue
             ups = aggs[0]["rv"]["ops"]
             by_ref_env = h["locals"][1]["ty"].startswith("&")
@@ -1136,9 +1161,14 @@ def desugar_iter_closures(d):
                 return len(b["locals"]) - 1
             # captured variables: the place each upvar stands for
             up_place = {}
+            up_deref = {}      # upvar k is a reference made just for the capture (`_r = &mut P`): `*upvar` is the place P itself
             for k, o in enumerate(ups):
                 if o.get("k") in ("move", "copy"):
                     up_place[k] = copy.deepcopy(o["place"])
+                    if not o["place"]["p"]:
+                        rd = [st for blk in b["blocks"] for st in blk.get("stmts", []) if st.get("k") == "assign" and st["lhs"]["l"] == o["place"]["l"] and not st["lhs"]["p"]]
+                        if len(rd) == 1 and rd[0]["rv"].get("k") == "ref":
+                            up_deref[k] = copy.deepcopy(rd[0]["rv"]["place"])
                 else:
                     nl = new_local(o.get("ty", "?"))
                     b["blocks"][ci]["stmts"].append({"k": "assign", "lhs": {"l": nl, "p": [], "ty": o.get("ty", "?")}, "rv": {"k": "use", "op": copy.deepcopy(o)}, "line": line})
@@ -1158,14 +1188,111 @@ def desugar_iter_closures(d):
                     k0 = 1 if (by_ref_env and pr and pr[0] == "*") else 0
                     if len(pr) > k0 and isinstance(pr[k0], dict) and isinstance(pr[k0].get("f"), int) and pr[k0]["f"] in up_place and (k0 == 1 or not by_ref_env):
                         base = up_place[pr[k0]["f"]]
+                        rest = pr[k0 + 1:]
+                        if rest and rest[0] == "*" and pr[k0]["f"] in up_deref:
+                            base, rest = up_deref[pr[k0]["f"]], rest[1:]
                         out = dict(x)
                         out["l"] = base["l"]
-                        out["p"] = list(base["p"]) + [fix_places(e) for e in pr[k0 + 1:]]
+                        out["p"] = list(base["p"]) + [fix_places(e) for e in rest]
                         return out
                 return {k: fix_places(v) for k, v in x.items()}
-            item_ty = h["locals"][2]["ty"]
+            item_ty = h["locals"][2]["ty"] if len(h["locals"]) > 2 else "?"
             ret_ty = h["locals"][0]["ty"]
             it = t["args"][0]
+            if kind == "call":
+                # `f(a, b)`  ==>  the closure's blocks in place, its parameters assigned from the argument tuple
+                n_blocks = len(h["blocks"])
+                PRE, RET = off_b + n_blocks, off_b + n_blocks + 1
+                for hb, blk in enumerate(h["blocks"]):
+                    nb = fix_places(_shift(blk, lmap, off_b))
+                    tt = nb.get("term")
+                    if tt and tt.get("k") == "return":
+                        nb["term"] = {"k": "goto", "t": RET, "line": tt.get("line", line)}
+                    b["blocks"].append(nb)
+                tup = t["args"][1]
+                n_par = h.get("arg_count", 1) - 1
+                pre = []
+                tdef = sole_def(tup["place"]["l"]) if tup.get("k") in ("move", "copy") and not tup["place"]["p"] else None
+                for k_ in range(n_par):
+                    pty = h["locals"][2 + k_]["ty"]
+                    if tdef is not None and tdef["rv"].get("k") == "agg" and tdef["rv"].get("ak") == "tuple" and len(tdef["rv"]["ops"]) == n_par:
+                        src = copy.deepcopy(tdef["rv"]["ops"][k_])
+                    elif tup.get("k") in ("move", "copy"):
+                        src = {"k": "move", "place": {"l": tup["place"]["l"], "p": list(tup["place"]["p"]) + [{"f": k_, "n": str(k_), "fty": pty}], "ty": pty}}
+                    else:
+                        src = copy.deepcopy(tup)
+                    pre.append({"k": "assign", "lhs": {"l": off_l + 2 + k_, "p": [], "ty": pty}, "rv": {"k": "use", "op": src}, "line": line})
+                b["blocks"].append({"stmts": pre, "term": {"k": "goto", "t": off_b, "line": line}})   # PRE
+                b["blocks"].append({"stmts": [{"k": "assign", "lhs": copy.deepcopy(t["dest"]), "rv": {"k": "use", "op": {"k": "move", "place": {"l": off_l, "p": [], "ty": ret_ty}}}, "line": line}],
+                                    "term": {"k": "goto", "t": t["t"], "line": line}})   # RET
+                b["blocks"][ci]["term"] = {"k": "goto", "t": PRE, "line": line, "desugared": g}
+                done.append(h["def"])
+                continue
+            if kind in ("map", "map_or"):
+                # `opt.map(|v| e)` ==> match opt { Some(v) => Some(e), None => None };  `opt.map_or(d, |v| e)` ==> match opt { Some(v) => e, None => d }
+                if it.get("k") not in ("move", "copy"):
+                    del b["locals"][off_l:]
+                    continue
+                n_blocks = len(h["blocks"])
+                SW0, PRE, RET, NONE, UNREACH = [off_b + n_blocks + k for k in range(5)]
+                for hb, blk in enumerate(h["blocks"]):
+                    nb = fix_places(_shift(blk, lmap, off_b))
+                    tt = nb.get("term")
+                    if tt and tt.get("k") == "return":
+                        nb["term"] = {"k": "goto", "t": RET, "line": tt.get("line", line)}
+                    b["blocks"].append(nb)
+                opt_pl = copy.deepcopy(it["place"])
+                disc_l = new_local("isize")
+                b["blocks"].append({"stmts": [{"k": "assign", "lhs": {"l": disc_l, "p": [], "ty": "isize"}, "rv": {"k": "discr", "place": copy.deepcopy(opt_pl)}, "line": line}],
+                                    "term": {"k": "switch", "op": {"k": "move", "place": {"l": disc_l, "p": [], "ty": "isize"}}, "targets": [[0, NONE], [1, PRE]], "otherwise": UNREACH, "line": line}})   # SW0
+                some_pl = {"l": opt_pl["l"], "p": list(opt_pl["p"]) + [{"dc": "Some", "v": 1}, {"f": 0, "n": "0", "adt": "std::option::Option", "v": "Some", "fty": item_ty}], "ty": item_ty}
+                b["blocks"].append({"stmts": [{"k": "assign", "lhs": {"l": off_l + 2, "p": [], "ty": item_ty}, "rv": {"k": "use", "op": {"k": "move", "place": some_pl}}, "line": line}],
+                                    "term": {"k": "goto", "t": off_b, "line": line}})   # PRE
+                ret_op = {"k": "move", "place": {"l": off_l, "p": [], "ty": ret_ty}}
+                if kind == "map":
+                    ret_rv = {"k": "agg", "ak": "adt", "adt": "std::option::Option", "variant": "Some", "fields": ["0"], "targs": [ret_ty], "ops": [ret_op]}
+                    none_rv = {"k": "agg", "ak": "adt", "adt": "std::option::Option", "variant": "None", "fields": [], "targs": [ret_ty], "ops": []}
+                else:
+                    ret_rv = {"k": "use", "op": ret_op}
+                    none_rv = {"k": "use", "op": copy.deepcopy(t["args"][1])}
+                b["blocks"].append({"stmts": [{"k": "assign", "lhs": copy.deepcopy(t["dest"]), "rv": ret_rv, "line": line}], "term": {"k": "goto", "t": t["t"], "line": line}})   # RET
+                b["blocks"].append({"stmts": [{"k": "assign", "lhs": copy.deepcopy(t["dest"]), "rv": none_rv, "line": line}], "term": {"k": "goto", "t": t["t"], "line": line}})   # NONE
+                b["blocks"].append({"stmts": [], "term": {"k": "unreachable", "line": line}})   # UNREACH
+                b["blocks"][ci]["term"] = {"k": "goto", "t": SW0, "line": line, "desugared": g}
+                done.append(h["def"])
+                continue
+            if is_filter:
+                # `opt.filter(|x| pred)`  ==>  match opt { Some(v) if pred(&v) => Some(v), _ => None }
+                if it.get("k") not in ("move", "copy") or ret_ty != "bool":
+                    del b["locals"][off_l:]
+                    continue
+                n_blocks = len(h["blocks"])
+                SW0, PRE, CHK, KEEP, NONE, UNREACH = [off_b + n_blocks + k for k in range(6)]
+                for hb, blk in enumerate(h["blocks"]):
+                    nb = fix_places(_shift(blk, lmap, off_b))
+                    tt = nb.get("term")
+                    if tt and tt.get("k") == "return":
+                        nb["term"] = {"k": "goto", "t": CHK, "line": tt.get("line", line)}
+                    b["blocks"].append(nb)
+                opt_pl = copy.deepcopy(it["place"])
+                opt_ty = opt_pl.get("ty") or (b["locals"][opt_pl["l"]]["ty"] if not opt_pl["p"] else "?")
+                inner_ty = item_ty[1:].lstrip() if item_ty.startswith("&") else item_ty
+                disc_l = new_local("isize")
+                b["blocks"].append({"stmts": [{"k": "assign", "lhs": {"l": disc_l, "p": [], "ty": "isize"}, "rv": {"k": "discr", "place": copy.deepcopy(opt_pl)}, "line": line}],
+                                    "term": {"k": "switch", "op": {"k": "move", "place": {"l": disc_l, "p": [], "ty": "isize"}}, "targets": [[0, NONE], [1, PRE]], "otherwise": UNREACH, "line": line}})   # SW0
+                some_pl = {"l": opt_pl["l"], "p": list(opt_pl["p"]) + [{"dc": "Some", "v": 1}, {"f": 0, "n": "0", "adt": "std::option::Option", "v": "Some", "fty": inner_ty}], "ty": inner_ty}
+                b["blocks"].append({"stmts": [{"k": "assign", "lhs": {"l": off_l + 2, "p": [], "ty": item_ty}, "rv": {"k": "ref", "mut": False, "place": some_pl}, "line": line}],
+                                    "term": {"k": "goto", "t": off_b, "line": line}})   # PRE
+                b["blocks"].append({"stmts": [], "term": {"k": "switch", "op": {"k": "copy", "place": {"l": off_l, "p": [], "ty": "bool"}}, "targets": [[0, NONE]], "otherwise": KEEP, "line": line}})   # CHK
+                b["blocks"].append({"stmts": [{"k": "assign", "lhs": copy.deepcopy(t["dest"]), "rv": {"k": "use", "op": {"k": it["k"], "place": copy.deepcopy(opt_pl)}}, "line": line}],
+                                    "term": {"k": "goto", "t": t["t"], "line": line}})   # KEEP
+                b["blocks"].append({"stmts": [{"k": "assign", "lhs": copy.deepcopy(t["dest"]), "rv": {"k": "agg", "ak": "adt", "adt": "std::option::Option", "variant": "None", "fields": [],
+                                               "targs": [inner_ty], "ops": []}, "line": line}],
+                                    "term": {"k": "goto", "t": t["t"], "line": line}})   # NONE
+                b["blocks"].append({"stmts": [], "term": {"k": "unreachable", "line": line}})   # UNREACH
+                b["blocks"][ci]["term"] = {"k": "goto", "t": SW0, "line": line, "desugared": g}
+                done.append(h["def"])
+                continue
             it_ty = it["place"].get("ty") or b["locals"][it["place"]["l"]]["ty"] if it.get("k") in ("move", "copy") else "?"
             n_blocks = len(h["blocks"])
             HEAD, SW, BODY, EXIT, UNREACH, CHK, CHK2, BRK, ERRX = [off_b + n_blocks + k for k in range(9)]
